@@ -9,7 +9,7 @@ suite=$(cd $W && /venv/bin/python -m pytest -q -p no:cacheprovider --timeout=900
 /venv/bin/python -W ignore $O/demo.py $W > $R/demo_seeded.out 2>&1; rc_seed=$?
 res=""
 # private copy of the Coq tree: other checks may run against /repo at the same time
-CQ=$R/coq_private; rm -rf $CQ; cp -a /verif/coq $CQ
+CQ=$R/coq_private_$P; rm -rf $CQ; cp -a /verif/coq $CQ
 for c in "$@"; do
   out=$(cd /verif && VERIF_COQ=$CQ VERIF_REPO=$W ./check $c 2>&1 | grep -E "VIOLATION|^OK|CHECK-ERROR" | tr '\n' ';')
   res="$res $c: $out"
